@@ -191,8 +191,13 @@ Verdict judge(const Program& p, const std::string& desc) {
     Verdict v;
     auto bad = [&](const std::string& sig, const std::string& detail) { v.mismatches++; report(sig, desc, detail); };
     size_t expected_files = p.groups.size() * (size_t)p.repeat;
-    if (g_files.size() != expected_files)
-        bad(g_files.size() < expected_files ? "files/fewer-than-groups" : "files/more-than-groups", vf::fmt("%zu files opened for %zu groups x %d runs", g_files.size(), p.groups.size(), p.repeat));
+    if (g_files.size() != expected_files) {
+        // files can no longer be attributed to groups by position: report this alone (comparing file k with group k would
+        // only produce misleading follow-up signatures)
+        std::string opened; for (auto& f : g_files) opened += " '" + vf::esc(f->name) + "'";
+        bad(g_files.size() < expected_files ? "files/fewer-than-groups" : "files/more-than-groups", vf::fmt("%zu files opened for %zu groups x %d runs:", g_files.size(), p.groups.size(), p.repeat) + opened);
+        return v;
+    }
     if (g_foreign_close) bad("files/close-of-unknown-handle", "FClose called with a handle FOpen never returned");
     size_t n = std::min(g_files.size(), expected_files);
     // captured output: the unchanged implementation keeps ONE buffer per output object that is never cleared, so the
@@ -211,7 +216,9 @@ Verdict judge(const Program& p, const std::string& desc) {
         if (!f.closed || f.closes != 1) bad("files/not-closed-once", where + vf::fmt("closed %d times", f.closes));
         if (f.writes_after_close) bad("files/write-after-close", where + vf::fmt("%d writes after close", f.writes_after_close));
         std::string base = "cpputest_" + (p.has_package ? p.package + "_" : std::string()) + g.name;
-        if (!file_name_acceptable(f.name, base)) bad("filename/not-derived-from-package-and-group", where + "expected '" + vf::esc(base) + ".xml' with each of /\\?%*:|\"<> replaced by _");
+        // an empty package name: "no package" (what the unchanged code does) or an empty package part are both readings
+        bool name_ok = file_name_acceptable(f.name, base) || (p.has_package && p.package.empty() && file_name_acceptable(f.name, "cpputest_" + g.name));
+        if (!name_ok) bad("filename/not-derived-from-package-and-group", where + "expected '" + vf::esc(base) + ".xml' with each of /\\?%*:|\"<> replaced by _");
 
         XDoc d; parse_xml(f.content, d);
         if (!d.ok) {
@@ -386,6 +393,43 @@ void run_printed(int ng, int nt, const char* const* alphabet, long nA, bool both
     if (special) vf::count("nontrivial");
     vf::outcome(vf::fmt("printing=%d with-markup=%d runs=%d %s", printing, special, p.repeat, v.notwf ? "not-well-formed" : v.mismatches ? "mismatch" : "faithful"));
 }
+// ------------------------------------------------------------------ group-name programs: names that are empty, that consist only of
+// characters the file-name rule replaces, and different names that map to the same file name
+void run_names(const std::vector<const char*>& names, const std::vector<Pattern>& pats12, const std::vector<Pattern>& pats1, long idx) {
+    long G = (long)names.size();
+    int variant = (int)(idx % 3); idx /= 3;        // 0: no package; 1: empty package name; 2: package "pkg" and the first test of every group has the empty name
+    // number of groups: 1, 2 (patterns of 1..2 tests) or 3 (patterns of 1 test); names pairwise different (a group is a maximal run of equal names)
+    long P2 = (long)pats12.size(), P1 = (long)pats1.size();
+    long n1 = G * P2, n2 = G * G * P2 * P2;
+    int ng; const std::vector<Pattern>* pats;
+    if (idx < n1) { ng = 1; pats = &pats12; } else if (idx < n1 + n2) { idx -= n1; ng = 2; pats = &pats12; } else { idx -= n1 + n2; ng = 3; pats = &pats1; }
+    long P = (long)pats->size();
+    int gi[3]; for (int g = 0; g < ng; g++) { gi[g] = (int)(idx % G); idx /= G; }
+    for (int a = 0; a < ng; a++) for (int b = a + 1; b < ng; b++) if (gi[a] == gi[b]) { vf::count("skipped_equal_group_names"); return; }
+    vf::count("executed");
+    Program p; p.has_package = variant != 0; p.package = variant == 2 ? "pkg" : "";
+    int failed = 0, ignored = 0, special = 0; bool collision = false;
+    auto encoded = [](std::string n) { for (auto& c : n) if (strchr(FORBIDDEN_IN_FILE_NAMES, c)) c = '_'; return n; };
+    for (int g = 0; g < ng; g++) {
+        const Pattern& pat = (*pats)[idx % P]; idx /= P;
+        GroupSpec gs; gs.name = names[gi[g]];
+        if (gs.name.empty() || encoded(gs.name) != gs.name) special++;
+        for (int h = 0; h < g; h++) if (encoded(p.groups[h].name) == encoded(gs.name)) collision = true;
+        for (size_t t = 0; t < pat.outcomes.size(); t++) {
+            TestSpec ts; ts.name = (variant == 2 && t == 0) ? std::string() : vf::fmt("test_%d_%zu", g, t); ts.file = vf::fmt("tests/group%d.cpp", g); ts.line = (size_t)(100 * (g + 1) + 10 * t);
+            ts.outcome = pat.outcomes[t]; ts.ffile = vf::fmt("src/helper%d.cpp", g); ts.fline = (size_t)(1000 * (g + 1) + 10 * t);
+            ts.msg = vf::fmt("first failure of %d.%zu", g, t); ts.msg2 = vf::fmt("second failure of %d.%zu", g, t);
+            ts.prints = true; ts.out = vf::fmt("[out %d.%zu]", g, t);
+            failed += ts.outcome == FAIL || ts.outcome == FAIL2; ignored += ts.outcome == IGN;
+            gs.tests.push_back(ts);
+        }
+        p.groups.push_back(gs);
+    }
+    Verdict v = run_program(p);
+    if (special) vf::count("nontrivial");
+    vf::outcome(vf::fmt("groups=%d special-names=%d same-file-name=%d variant=%d failed=%d ignored=%d %s", ng, special, (int)collision, variant, failed ? 1 : 0, ignored ? 1 : 0,
+                        v.notwf ? "not-well-formed" : v.mismatches ? "mismatch" : "faithful"));
+}
 long ipow(long b, int e) { long r = 1; while (e-- > 0) r *= b; return r; }
 
 // ------------------------------------------------------------------ text programs
@@ -415,14 +459,14 @@ void run_text(const std::string f[NFIELDS]) {
     p.groups.push_back(g2);
     Verdict v = run_program(p);
     int mask = 0; bool nontrivial = false;
-    for (int i = 0; i < NFIELDS; i++) if (has_markup(f[i])) { mask |= 1 << i; nontrivial = true; }
+    for (int i = 0; i < NFIELDS; i++) if (has_markup(f[i]) || f[i].empty()) { mask |= 1 << i; nontrivial = true; }
     if (has_file_name_char(f[F_GROUP]) || has_file_name_char(f[F_PACKAGE])) { mask |= 1 << NFIELDS; nontrivial = true; }
     if (nontrivial) vf::count("nontrivial");
     vf::outcome(vf::fmt("markup-in-fields=%02x %s", mask, v.notwf ? "not-well-formed" : v.mismatches ? "mismatch" : "faithful"));
 }
 
-const char* ATOMS_Q[] = {"a", "&", "<", ">", "\"", "'", "\n", "\r", "&amp;", "&#10;", "]]>", "a&b<c>\"d'", " ", "/\\?%*:|"};
-const char* ATOMS_T[] = {"a", "&", "<", ">", "\"", "'", "\n", "\r", "&amp;", "&#10;", "]]>", "a&b<c>\"d'", " ", "/\\?%*:|",
+const char* ATOMS_Q[] = {"", "a", "&", "<", ">", "\"", "'", "\n", "\r", "&amp;", "&#10;", "]]>", "a&b<c>\"d'", " ", "/\\?%*:|"};
+const char* ATOMS_T[] = {"", "a", "&", "<", ">", "\"", "'", "\n", "\r", "&amp;", "&#10;", "]]>", "a&b<c>\"d'", " ", "/\\?%*:|",
                          "\r\n", "\n\n", "<!--", "<![CDATA[", "<?", "\"/>", "\">", "&lt;", "&#13;", "'\"", "x y ", "</testsuite>"};
 const char SHORT_ALPHABET[] = {'a', '&', '<', '>', '"', '\'', '\n', '\r', ';', '#'};
 
@@ -435,7 +479,7 @@ int main(int argc, char** argv) {
     PlatformSpecificFOpen = cap_open; PlatformSpecificFPuts = cap_puts; PlatformSpecificFClose = cap_close; PlatformSpecificFlush = flush_nop;
     GetPlatformSpecificTimeInMillis = time_zero; GetPlatformSpecificTimeString = timestr_fixed;
     bool T = vf::thorough();
-    vf::info("rule", "every program of the stated family is run through the real TestRegistry/TestResult/JUnitTestOutput; every file written through the FOpen/FPuts/FClose seams is parsed by expat and compared with what the scripted tests did; non-trivial = (structure) at least one failed or ignored test, (text) at least one field contains a character with XML meaning (& < > \" ' CR LF) or a character that is illegal in file names");
+    vf::info("rule", "every program of the stated family is run through the real TestRegistry/TestResult/JUnitTestOutput; every file written through the FOpen/FPuts/FClose seams is parsed by expat and compared with what the scripted tests did; non-trivial = (structure) at least one failed or ignored test, (text) at least one field is empty or contains a character with XML meaning (& < > \" ' CR LF) or a character that is illegal in file names; (names) at least one group name is empty or changed by the file-name rule; (out) at least one printed text contains such a character");
     vf::info("judge", std::string("independent XML parser: ") + X.ExpatVersion() + " (dlopen libexpat.so.1)");
 
     {
@@ -467,6 +511,17 @@ int main(int argc, char** argv) {
         vf::require_outcomes("struct2x4", 8);
     }
 
+    {
+        std::vector<const char*> names = {"Plain", "", "/", "|", "a/b", "a?b", "a_b"};
+        if (T) { names.push_back("a b"); names.push_back("<>"); }
+        std::vector<Pattern> p12 = patterns_up_to(2), p1 = patterns_up_to(1);
+        long G = (long)names.size(), P2 = (long)p12.size(), P1 = (long)p1.size();
+        long N = 3 * (G * P2 + G * G * P2 * P2 + G * G * G * P1 * P1 * P1);
+        std::string nl; for (auto n : names) nl += std::string(nl.empty() ? "" : " ") + "'" + vf::esc(n) + "'";
+        vf::info("names.bound", vf::fmt("group names from {%s} (the empty name; names made only of replaced characters; different names with the same file name cpputest_a_b.xml / cpputest__.xml): every sequence of 1..2 groups with pairwise different names x the %ld outcome patterns of 1..2 tests per group, every sequence of 3 groups x the %ld patterns of 1 test, x {no package; empty package name; package 'pkg' and the first test of every group has the empty name}; index space %ld (sequences with a repeated name are skipped and counted)", nl.c_str(), P2, P1, N));
+        vf::section_index("names", N, [&](long idx) { run_names(names, p12, p1, idx); });
+        vf::require_outcomes("names", 12);
+    }
     const char** atoms = T ? ATOMS_T : ATOMS_Q;
     {
         // printed text in any group: alphabet = no print + the text atoms (the blank and the file-name atom left out in quick)
@@ -514,7 +569,7 @@ int main(int argc, char** argv) {
 
     if (T) {
         long AQ = (long)(sizeof ATOMS_Q / sizeof *ATOMS_Q);
-        vf::info("text3.bound", vf::fmt("each of the 35 triples of fields x all %ld^3 triples of the first %ld atoms, the other fields plain", AQ, AQ));
+        vf::info("text3.bound", vf::fmt("each of the 35 triples of fields x all %ld^3 triples of the first %ld atoms (the empty text included), the other fields plain", AQ, AQ));
         vf::section_index("text3", 35 * AQ * AQ * AQ, [&](long idx) {
             vf::Radix r(idx); long tr = r.take(35); long a1 = r.take(AQ), a2 = r.take(AQ), a3 = r.take(AQ);
             int fa = 0, fb = 1, fc = 2;
